@@ -225,6 +225,70 @@ def job_initialize(seed):
     return obs
 
 
+def job_initialize_allN(seed):
+    """HistogramNew::Initialize_ for EVERY bin count n >= 2: the loop over the bins is closed by the invariant v == min + i*step (body and increment executed once for a symbolic i)"""
+    rvc.reset()
+    rel = 'tools/src/libtools/histogramnew.cc'
+    fns = rvc.functions(rvc.ast(rel, 'HistogramNew::Initialize_'))
+    if 'Initialize_' not in fns:
+        raise core.Undecided('front end: HistogramNew::Initialize_ not found')
+    fn = fns['Initialize_'][0]
+    F = 'HistogramNew::Initialize_'
+    stmts = rvc.body_of(fn)['inner']
+    loops = [k for k, st in enumerate(stmts) if st['kind'] == 'ForStmt']
+    if len(loops) != 1:
+        raise core.Undecided('HistogramNew::Initialize_: one loop over the bins expected')
+    mf = [{'name': F, 'file': rel, 'ast_nodes': rvc.node_count(fn), 'route': 'RVC (symbolic bin count, loop closed by an invariant)'}]
+    obs = []
+    mn, mx = sp.symbols('hmin hmax', real=True)
+    nsym, isym = sp.Symbol('nbins', integer=True, positive=True), sp.Symbol('i', integer=True, nonnegative=True)
+    for periodic in (False, True):
+        P = rvc.Paths(); P.start()
+        rvc.CTX.base = [z3.Int('nbins') >= 2, z3.Int('i') >= 0, z3.Int('i') < z3.Int('nbins')]
+        ev, writes = [], []
+        cb = {'decide': P.decide, 'resize': lambda t, k: ev.append(('resize', rvc.SInt.ex(k))), 'x': lambda t, i: rvc.Ref(lambda: None, lambda val, i=i: writes.append((rvc.SInt.ex(i), D.lift(val).v))),
+              'y': lambda t: rvc.Ref(lambda: None, lambda v: ev.append(('y', v))), 'yerr': lambda t: rvc.Ref(lambda: None, lambda v: ev.append(('yerr', v))), 'flags': lambda t: rvc.Ref(lambda: None, lambda v: ev.append(('flags', v))),
+              'Zero': lambda k: ('zero', rvc.SInt.ex(k)), 'construct': lambda ex_, nn, ty, args: (('flags', [rvc.rval(ex_.expr(a)) for a in args]) if 'vector<char' in ty else NotImplemented)}
+        this = {'min_': D(mn), 'max_': D(mx), 'step_': D(rvc.fresh('uninit')), 'nbins_': rvc.SInt(nsym), 'periodic_': periodic, 'data_': 'TABLE'}
+        ex = Exec({}, cb, {}, this)
+        for st in stmts[:loops[0]]:
+            ex.stmt(st)
+        tag = 'periodic' if periodic else 'plain'
+        step = this['step_'].v
+        exp_step = (mx - mn) / nsym if periodic else (mx - mn) / (nsym - 1)
+        o = rvc.identity('C13.init.allN/%s/step' % tag, F, 'step = (max-min)/(n-1), (max-min)/n when periodic, for every n >= 2', step, exp_step, seed); o['functions'] = mf; obs.append(o)
+        loop = stmts[loops[0]]
+        carried = [k for k, v in ex.env.items() if isinstance(v, D)]
+        ok0 = len(carried) == 1 and rvc.nf_zero(ex.env[carried[0]].v - mn) and ev == [('resize', nsym)]
+        o = Ob('C13.init.allN/%s/entry' % tag, F, 'the table is resized to n bins and the running centre starts at min (invariant v == min + i*step holds for i = 0)', 'RVC', 'symbolic execution', core.PROVED if ok0 else core.REFUTED, 0, '%s %s' % (carried, ev), witness=None if ok0 else {})
+        o['functions'] = mf; obs.append(o)
+        if not ok0:
+            continue
+        vname = carried[0]
+        iname = [v.get('name') for v in (loop['inner'][0].get('inner') or []) if v.get('kind') == 'VarDecl']
+        iname = iname[0] if iname else 'i'
+        ex.env[iname] = rvc.SInt(isym)
+        ex.env[vname] = D(mn + isym * step)               # the invariant at the head of iteration i
+        ex.stmt(loop['inner'][4])
+        ex.expr(loop['inner'][3])                          # the increment expression(s)
+        okw = len(writes) == 1 and sp.expand(writes[0][0] - isym) == 0
+        o = Ob('C13.init.allN/%s/one-write' % tag, F, 'iteration i writes the centre of bin i and nothing else', 'RVC', 'symbolic execution', core.PROVED if okw else core.REFUTED, 0, str(writes)[:200], witness=None if okw else {})
+        o['functions'] = mf; obs.append(o)
+        if okw:
+            o = rvc.identity('C13.init.allN/%s/centre' % tag, F, 'centre of bin i == min + i*step for every bin of every histogram', writes[0][1], mn + isym * exp_step, seed); o['functions'] = mf; obs.append(o)
+        oki = sp.expand(rvc.SInt.ex(ex.env[iname]) - isym - 1) == 0
+        o = rvc.identity('C13.init.allN/%s/invariant' % tag, F, 'after the increment the invariant holds for i+1: v == min + (i+1)*step', ex.env[vname].v, mn + (isym + 1) * step, seed); o['functions'] = mf; obs.append(o)
+        o = Ob('C13.init.allN/%s/counter' % tag, F, 'the bin counter advances by one', 'RVC', 'symbolic execution', core.PROVED if oki else core.REFUTED, 0, str(ex.env[iname]), witness=None if oki else {})
+        o['functions'] = mf; obs.append(o)
+        ev[:] = []
+        for st in stmts[loops[0] + 1:]:
+            ex.stmt(st)
+        okz = [e[0] for e in ev] == ['y', 'yerr', 'flags'] and all(e[1] == ('zero', nsym) for e in ev[:2]) and ev[2][1][0] == 'flags' and rvc.SInt.ex(ev[2][1][1][0]) == nsym
+        o = Ob('C13.init.allN/%s/contents' % tag, F, 'bin contents and errors are n zeros, n flags are set', 'RVC', 'symbolic execution', core.PROVED if okz else core.REFUTED, 0, str(ev)[:200], witness=None if okz else {})
+        o['functions'] = mf; obs.append(o)
+    return obs
+
+
 def job_normalize(seed, n=3):
     rvc.reset()
     rel = 'tools/src/libtools/histogramnew.cc'
@@ -346,7 +410,7 @@ def collect(obs):
 
 
 def run(tier, seed, only=None):
-    jobs = [(process_ccv, (tier,)), (job_process_logic, (seed,)), (job_initialize, (seed,)), (job_normalize, (seed,)), (job_legacy_range, (seed,))]
+    jobs = [(process_ccv, (tier,)), (job_process_logic, (seed,)), (job_initialize, (seed,)), (job_initialize_allN, (seed,)), (job_normalize, (seed,)), (job_legacy_range, (seed,))]
     if only:
         import re as _re
         jobs = [j for j in jobs if _re.search(only, j[0].__name__)]
